@@ -261,7 +261,8 @@ IntBin(op, x, y) ==
                       ELSE (IF x.neg THEN INeg(IOne) ELSE IZero)
       [] OTHER -> Und
 FloatBin(op, x, y) ==      \* at least one operand was a float; both converted
-    CASE op = "+" -> FAdd(x, y)
+    CASE op \in {"/", "//", "%"} /\ y.c = "und" -> Und          \* an undecided divisor may be zero: nothing is decided
+      [] op = "+" -> FAdd(x, y)
       [] op = "-" -> FAdd(x, IF FIsDy(y) THEN [y EXCEPT !.n = -y.n] ELSE FUnd)
       [] op = "*" -> FMul(x, y)
       [] op = "/" -> IF FZero(y) THEN Exc("ZeroDivisionError") ELSE FDiv(x, y)
@@ -334,7 +335,7 @@ WellFormedValue(v) ==
       [] v.t = "float" -> v.c \in {"und", "huge"} \/ (v.c = "dy" /\ Abs(v.n) < NLim /\ v.e \in 0..8 /\ (v.e = 0 \/ v.n % 2 # 0))
       [] v.t = "str" -> \A i \in 1..Len(v.s) : v.s[i] \in 0..1114111
       [] v.t = "bool" -> v.b \in BOOLEAN
-      [] v.t = "exc" -> v.x \in {"TypeError", "ZeroDivisionError", "OverflowError", "ValueError", "UnboundLocalError", "IndexError"}
+      [] v.t = "exc" -> v.x \in {"TypeError", "ZeroDivisionError", "OverflowError", "ValueError", "UnboundLocalError", "NameError", "IndexError"}
       [] OTHER -> v.t = "und"
 
 VARIABLE m        \* the machine: arith phase [ph, i, done, r] ; static / run phases see below
@@ -520,7 +521,7 @@ Eval(e, env, T, sc) ==
     CASE IsLit(e) -> R(Lit(e), {})
       [] e.k = "name" ->
             IF env[e.v].t = "unb"
-            THEN R(Exc("UnboundLocalError"), IF T[e.v] \in CTypes THEN {Hz("unbound_c_read", "c_local_has_no_unbound_state", e.v)} ELSE {})
+            THEN R(Exc(IF sc = "lam" THEN "NameError" ELSE "UnboundLocalError"), IF T[e.v] \in CTypes THEN {Hz("unbound_c_read", "c_local_has_no_unbound_state", e.v)} ELSE {})
             ELSE R(env[e.v], {})
       [] e.k = "bin" ->
             LET l == Eval(e.l, env, T, sc) IN
